@@ -185,8 +185,9 @@ def pipelines():
     out.append(('t_custom_fpad', 'u K A', opshim.coq(custom(u, K, zero_padding=True, aperture=A))))
     # every torch method = custom with the kernel of its own type
     calls = []
-    def gpk(**kw):
-        calls.append(kw)
+    bind_gpk = shim.binder('odak/learn/wave/classical.py', 'get_propagation_kernel')
+    def gpk(*a, **kw):
+        calls.append(bind_gpk(*a, **kw))          # by name, however the caller passed them
         return opshim.fvar('K')
     ns['get_propagation_kernel'] = gpk
     shim.load('odak/learn/wave/classical.py', TORCH_PIPES + ['propagate_beam', 'fraunhofer'], ns)
@@ -294,7 +295,7 @@ def upsampled():
     for tag, f in (('ir', 'impulse_response_fresnel'), ('sir', 'seperable_impulse_response_fresnel')):
         ns = shim.base_namespace(); cap = {}
         shim.load('odak/learn/wave/util.py', ['calculate_amplitude', 'calculate_phase', 'generate_complex_field'], ns)
-        ns['get_propagation_kernel'] = lambda **kw: 'KERNEL'
+        ns['get_propagation_kernel'] = lambda *a, **kw: 'KERNEL'
         def custom(field_scale, H, zero_padding=False, aperture=1.):
             cap['f'] = field_scale
             return field_scale
